@@ -82,3 +82,19 @@ package main
 //@   infunc regsync\.filterList$
 //   (filter / filter__2: the range variables of the allow loop and of the deny loop)
 //@   requires anchored-as-a-group: expr == "^(?:" + caller.filter + ")$" || expr == "^(?:" + caller.filter__2 + ")$"
+
+// The cache that resolves a platform of a source index is content addressed: every lookup and
+// every store uses, as key, the digest of the manifest the source has just announced for the
+// reference (origMan) - never a name, which would keep answering from a stale index after the
+// source tag moved.
+//@ ghost $keyDigest digest.Digest
+//@ ghost $keyOf manifest.Manifest
+//@ func (*rootOpts).getPlatformDigest(ctx, r, platStr, origMan) (d, err)
+//@   prop C18
+//@   on-call GetDigest: $keyDigest = result
+//@   on-call GetDigest: $keyOf = arg0
+//@ mapaccess map[string]~/types/manifest.Manifest
+//@   prop C18
+//@   name manifestCache
+//@   in ~/cmd/regsync
+//@   requires keyed-by-the-announced-digest: k == string($keyDigest) && $keyOf == caller.origMan
